@@ -384,4 +384,61 @@ class _MediumSwap(ast.NodeTransformer):
 U_MEDIUM = Unit(P + '/--medium round trip', ['Medium.as_cmdline', 'main'], t_medium, SCH,
                 canaries=[Canary('medium-constants-swapped', 'Medium.as_cmdline', _MediumSwap, [P + '/--medium round trip/permittivity'])])
 
-UNITS = [U_WIRE, U_ARC, U_HELIX, U_TAPER, U_LOAD, U_EXC, U_MEDIUM]
+
+
+# ---------------------------------------------------------------- --rlc-load / --trap-load
+def t_rlc_trap(eng):
+    which = eng.choose(2)
+    cls, opt, loop_text = [('Series_RLC_Load', '--rlc-load', 'args.rlc_load'), ('Trap_Load', '--trap-load', 'args.trap_load')][which]
+    name = P + '/%s round trip' % opt
+    ld = SObj(cls, label='ld')
+    vals = []
+    for k, nm in enumerate(('r', 'l', 'c')):
+        kind = eng.choose(3) if which == 0 else 1        # RLC: None / value / zero ; trap: always values
+        v = None if kind == 0 else fresh_real(nm)
+        if kind == 2:
+            eng.assume(r_cmp('==', v, 0))
+        elif kind == 1 and which == 0:
+            eng.assume(r_cmp('!=', v, 0))
+        ld.fields[nm] = v
+        vals.append((v, kind))
+    eng.summaries['_Load.as_cmdline_load_attach'] = lambda e, a, k: AStr([('lit', '--attach-load=1,1')])
+    text = eng.call_qual(cls + '.as_cmdline', [ld, SObj('Mininec', label='m')])
+    ls = lines_of(text)
+    nm_, value = option_value(ls[0])
+    eng.oblige(name + '/option-name', nm_ == opt)
+    loop = MS.loop_of(eng, loop_text)
+    record = []
+
+    def ctor(e, a, k):
+        record.append(list(a))
+        return SObj(cls, label='new')
+    eng.summaries[cls + '.__init__'] = ctor
+    eng.inline.add('parse_floatlist')
+    env = {'l': value, 'loads': SList(), 'f_err': AStr([('lit', '<stderr>')])}
+    out = MS.run_stmts(eng, loop.body, env)
+    eng.cover('rlc-trap%d' % which)
+    eng.oblige(name + '/written-line-is-accepted', out.kind == 'normal' and len(record) == 1, detail='%s %s' % (out.kind, out.exc))
+    if out.kind == 'normal' and len(record) == 1:
+        b = bind(eng, cls + '.__init__', record[0], {})
+        for (v, kind), pn in zip(vals, ('R', 'L', 'C')):
+            got = b.get(pn)
+            if which == 0 and kind in (0, 2):
+                # an unspecified (None) or zero element is written as an empty field and read back as "unspecified"
+                eng.oblige(name + '/unspecified-or-zero-%s-reads-back-as-unspecified' % pn, got is None)
+            else:
+                eng.oblige(name + '/%s-read-back' % pn, eng.values_equal(got, v))
+
+
+class _RlcOrder(ast.NodeTransformer):
+    def visit_Assign(self, node):
+        if ast.unparse(node.targets[0]) == 'ld' and 'self.r' in ast.unparse(node.value):
+            node.value = ast.parse('(self.r, self.c, self.l)').body[0].value
+        return node
+
+
+U_RLC = Unit(P + '/--rlc-load and --trap-load round trip', ['Series_RLC_Load.as_cmdline', 'Trap_Load.as_cmdline', 'main', 'parse_floatlist'],
+             t_rlc_trap, SCH,
+             canaries=[Canary('rlc-fields-in-the-wrong-order', 'Series_RLC_Load.as_cmdline', _RlcOrder, [P + '/--rlc-load round trip/'])])
+
+UNITS = [U_WIRE, U_ARC, U_HELIX, U_TAPER, U_LOAD, U_EXC, U_MEDIUM, U_RLC]
